@@ -41,6 +41,8 @@ def component_spellings(c):
             (f"{w} 1/2", 'word-frac'), (f"{w}½", 'word-sym'),
             (f"{c.lower()}/2", 'lower-slash'),
             (f"{w.lower()} half", 'lower-word'),
+            (f"{c} 2", 'bare-sp'), (f"{c} /2", 'slash-sp'),
+            (f"{c} / 2", 'slash-sp2'),
         ]
         if c in ('N', 'S'):
             out += [(f"{c}o. Half", 'abbr-word'), (f"{c}o. 1/2", 'abbr-frac')]
@@ -59,6 +61,8 @@ def component_spellings(c):
             (f"{wa}{wb.lower()}¼", 'word-sym'),
             (f"{c.lower()}/4", 'lower-slash'),
             (f"{wa.lower()}{wb.lower()} quarter", 'lower-word'),
+            (f"{c} 4", 'bare-sp'), (f"{c} /4", 'slash-sp'),
+            (f"{c} / 4", 'slash-sp2'),
         ]
     return out
 
@@ -133,6 +137,10 @@ PROSE_WORDS = [
     'fence', 'road', 'creek', 'acres', 'containing', 'approximately',
     'portion', 'remainder', 'railroad', 'right-of-way', 'homestead',
     'meadow', 'canal', 'ditch', 'bluff', 'ridge', 'pasture', 'orchard',
+    # ordinary words that END in a connective the parser treats specially
+    # (of / in / said / within / and / the) -- never the connective itself
+    'drain', 'basin', 'margin', 'cabin', 'thereof', 'aforesaid', 'wherein',
+    'highland', 'island', 'lathe', 'ravine', 'plain',
 ]
 # Words a block may not begin/end with (cleanup_desc strips them at the end;
 # kept away from the start too so blocks read naturally).
@@ -140,6 +148,9 @@ EDGE_FORBIDDEN = {'of', 'in', 'the', 'and', 'all'}
 
 CANNED_PROSE = [
     'That part lying above the river',
+    'That part lying north of the county drain',
+    'the accretions and appurtenances thereof',
+    'All that part of the drainage basin',
     'A strip of land 100 feet wide',
     'the remainder of the homestead parcel',
     'Beginning at a point on the fence, thence running along the road',
